@@ -16,7 +16,7 @@ Theorem index
                          `cleanupItem_total_of_len_ne`, `cleanupGroup_errors`, `cleanupGroup_lineage_iff`, `holder_ops_total`
   walk                   `walk_total_partial` (every error of `Walk.analyze` is unsupported / lineage / "None node" /
                          "unmodelled:…"), `walk_total_nonquery`
-  assembler              `build_total_rw`, `build_errors_only_multi_rename`
+  assembler              `build_total_rw`, `build_total` (every history, any number of RENAME pairs: D10 repaired), `build_never_errors`
   dispatch / silent      `unsupported_raises_or_skips`, `empty_holder_neutral`, `compose_empty_*`, `empty_holder_skipped`,
                          `analyzeAll_skip`, `silent_skip_neutral` (any non‑final position: structural equality of the combined graph),
                          `silent_skip_neutral_last` (final position: same roles, same column paths, `Ext`‑equal graphs)
@@ -251,57 +251,43 @@ open AStmt in
 theorem build_total_rw (ss : List AStmt) (hrw : C03.RWOnly ss) : ∃ G, AStmt.build ss = .ok G :=
   C03.build_total ss hrw
 
-/-- no RENAME statement of the history carries more than one pair -/
+/-- no RENAME statement of the history carries more than one pair (the hypothesis the totality theorem NEEDED before the
+    repair of D10; kept for `build_total_single_rename`, now a corollary) -/
 def SingleRename (ss : List AStmt.AStmt) : Prop := ∀ ps, AStmt.AStmt.rename ps ∈ ss → ps.length ≤ 1
 
-private theorem foldStep_ok_single (g : LGraph) (s : AStmt.AStmt) (hs : ∀ ps, s = .rename ps → ps.length ≤ 1) :
-    ∃ g', foldStep id g (AStmt.holderOf s) = .ok g' := by
-  cases s with
-  | rw R w => exact ⟨_, AStmt.foldStep_rw id g R w⟩
-  | drop t => exact ⟨_, C03.foldStep_drop id g t⟩
-  | rename ps =>
-    match ps, hs ps rfl with
-    | [], _ => exact ⟨_, foldStep_empty id g⟩
-    | [(x, y)], _ => exact C03.rename_single_pair_total g x y
-    | _ :: _ :: _, h => simp at h
-
-private theorem foldAll_ok_single : ∀ (ss : List AStmt.AStmt) (g : LGraph), SingleRename ss → NoCols g →
+private theorem foldAll_ok : ∀ (ss : List AStmt.AStmt) (g : LGraph), NoCols g →
     ∃ g', foldAll id g (ss.map AStmt.holderOf) = .ok g' ∧ NoCols g'
-  | [], g, _, hg => ⟨g, rfl, hg⟩
-  | s :: r, g, hs, hg => by
-    obtain ⟨g1, h1⟩ := foldStep_ok_single g s (fun ps hps => hs ps (by simp [hps]))
+  | [], g, hg => ⟨g, rfl, hg⟩
+  | s :: r, g, hg => by
+    obtain ⟨g1, h1⟩ := C03.foldStep_total id g (AStmt.holderOf s)
     have hg1 : NoCols g1 := noCols_foldStep hg (noCols_holderOf s) h1
-    obtain ⟨g', h', hn'⟩ := foldAll_ok_single r g1 (fun ps hps => hs ps (by simp [hps])) hg1
+    obtain ⟨g', h', hn'⟩ := foldAll_ok r g1 hg1
     exact ⟨g', by simp only [List.map_cons, foldAll, h1, h'], hn'⟩
 
-/-- a history in which every RENAME statement has at most one pair always assembles: DROP never fails, a single‑pair
-    RENAME never fails (`Props.C03.rename_single_pair_total`), the read/write branch cannot fail, and the tail of
-    `_build_digraph` (unresolved columns: `remove_edge`) has nothing to do on table‑level holders -/
-theorem build_total_single_rename (ss : List AStmt.AStmt) (h : SingleRename ss) : ∃ G, AStmt.build ss = .ok G := by
-  obtain ⟨g, hg, hn⟩ := foldAll_ok_single ss Graph.empty h noCols_empty
+/-- **the assembler is total on table‑level statement holders** (D10 repaired): EVERY history of read/write, DROP and
+    RENAME statements — any number of pairs per RENAME — assembles.  DROP never fails, RENAME never fails
+    (`Props.C03.foldStep_total`: the statement's RENAME edges are removed before relabelling, and the degree is only looked
+    up for a present node), the read/write branch cannot fail, and the tail of `_build_digraph` (unresolved columns:
+    `remove_edge`) has nothing to do on table‑level holders. -/
+theorem build_total (ss : List AStmt.AStmt) : ∃ G, AStmt.build ss = .ok G := by
+  obtain ⟨g, hg, hn⟩ := foldAll_ok ss Graph.empty noCols_empty
   refine ⟨tagSelfloops g, ?_⟩
   simp only [AStmt.build, Assemble.build, buildWith, hg]
   exact tail_noCols _ g hn.nodes
 
-/-- **the assembler returns an error only when some statement holder has ≥ 2 rename pairs** (D10, recorded under C03: the
-    outcome then depends on the iteration order of the pair set, `Props.C03.dev_D10`); for holders produced by
-    `AStmt.holderOf`.  The error is then the `NetworkXError` of `remove_edge`. -/
-theorem build_errors_only_multi_rename (ss : List AStmt.AStmt) (e : Err) (h : AStmt.build ss = .error e) :
-    ∃ ps, AStmt.AStmt.rename ps ∈ ss ∧ 2 ≤ ps.length := by
-  apply Classical.byContradiction
-  intro hno
-  have hs : SingleRename ss := by
-    intro ps hps
-    apply Classical.byContradiction
-    intro hlt
-    exact hno ⟨ps, hps, by omega⟩
-  obtain ⟨G, hG⟩ := build_total_single_rename ss hs
-  rw [hG] at h; cases h
+theorem build_total_single_rename (ss : List AStmt.AStmt) (_h : SingleRename ss) : ∃ G, AStmt.build ss = .ok G :=
+  build_total ss
 
-/-- the D10 shape is inside the excluded class and does fail: the hypothesis of `build_total_single_rename` is not idle -/
-theorem multi_rename_can_fail :
+/-- the assembler never returns an error on such histories -/
+theorem build_never_errors (ss : List AStmt.AStmt) (e : Err) : AStmt.build ss ≠ .error e := by
+  obtain ⟨G, hG⟩ := build_total ss
+  rw [hG]; intro h; cases h
+
+/-- the D10 shape (two pairs, the second renames onto the first's old name) used to end in the `NetworkXError` of
+    `remove_edge`; it now assembles -/
+theorem multi_rename_fixed :
     ¬ SingleRename [.rename [("b", "a"), ("c", "b")]] ∧
-    (match AStmt.build [.rename [("b", "a"), ("c", "b")]] with | .error (.internal _) => true | _ => false) = true := by
+    (match AStmt.build [.rename [("b", "a"), ("c", "b")]] with | .ok _ => true | _ => false) = true := by
   constructor
   · intro h; have := h [("b", "a"), ("c", "b")] (by simp); simp at this
   · decide
